@@ -1316,8 +1316,11 @@ class Reaction(Object):
                 )
             else:
                 # Reset them with add_metabolites
+                # Metabolites that were not part of the reaction are reset to 0,
+                # i.e., removed again.
+                old_by_id = {met.id: coef for met, coef in old_coefficients.items()}
                 mets_to_reset = {
-                    key: old_coefficients[model.metabolites.get_by_any(key)[0]]
+                    str(key): old_by_id.get(str(key), 0)
                     for key in metabolites_to_add.keys()
                 }
 
